@@ -58,7 +58,7 @@ def project(raw_lines):
     sessions, cur = [], None
     for x in raw_lines:
         if x.get("ev") == "reset":
-            cur = {"scen": x.get("scen", "?"), "lines": []}
+            cur = {"scen": x.get("scen", "?"), "ws": int(x.get("ws", 0)), "lines": []}
             sessions.append(cur)
         elif cur is not None:
             cur["lines"].append(x)
@@ -82,7 +82,7 @@ def project(raw_lines):
                 elif ev == "srvStatus" and who == "s":
                     seg.append({"op": "srvStatus", "st": x["st"]})
             if any(y["op"] != "relay" for y in seg):
-                out.append({"op": "reset", "who": who, "scen": s["scen"]})
+                out.append({"op": "reset", "who": who, "scen": s["scen"], "ws": s["ws"]})
                 out.extend(seg)
     return out
 
